@@ -9,7 +9,7 @@ H = [os.path.join(vlib.HARNESS, "root", f) for f in ("common_test.go", "lifecycl
 # what the tree is expected to do, as switches of the model (TRUE = as the code was before the repairs); the as-tree
 # configuration must be clean, each deviation must be violated (else the model has lost its teeth)
 TREE_CFG = "LanceroLifeTree.cfg"
-DEVIATIONS = [("LanceroLifeMixAnyTime.cfg", "C11_mix_answered"), ("LanceroLifeUnchecked.cfg", "C11_no_crash")]
+DEVIATIONS = [("LanceroLifeMixAnyTime.cfg", "C11_mix_answered"), ("LanceroLifeUnchecked.cfg", "C11_no_crash"), ("LanceroLifeStuck.cfg", "C10_failed_start_clean")]
 
 FIXED = [
     {"origin": "fixed:mix-before-any-start", "steps": ["Mix:m1", "Start", "Mix:m2", "Stop", "StopWait"], "bad": []},
@@ -18,6 +18,7 @@ FIXED = [
     {"origin": "fixed:mismatched-lists", "steps": ["Start", "Mix:m1", "Mix:m3", "Mix:m2", "Stop", "StopWait"], "bad": ["m3"]},
     {"origin": "fixed:mismatched-lists-not-running", "steps": ["Mix:m3", "Start", "Stop", "StopWait", "Mix:m3"], "bad": ["m3"]},
     {"origin": "fixed:silent-card", "steps": ["Start", "Silence", "Wait", "Mix:m1", "Stop", "StopWait", "Flow", "Start", "Mix:m2", "Couple", "Stop", "StopWait"], "bad": []},
+    {"origin": "fixed:failed-start-then-runs", "steps": ["StartBad", "Mix:m1", "Start", "Mix:m2", "Stop", "StopWait", "StartBad", "Start", "Stop", "StopWait"], "bad": []},
     {"origin": "fixed:three-runs", "steps": ["Start", "Stop", "StopWait", "Start", "Wait", "Stop", "StopWait", "Start", "Mix:m1", "Stop", "StopWait"], "bad": []},
 ]
 
